@@ -206,6 +206,21 @@ fn diamond_library(r: &mut Rng) -> Vec<(String, String)> {
     lib
 }
 
+/// a hub: one note with two headings included, by block reference, from 9‥13 other notes (some of them twice, one of them
+/// from a sub-section): whatever is kept per included note — counts, "the first few", a representative — comes out of a hash set
+fn hub_library(r: &mut Rng) -> Vec<(String, String)> {
+    let n = r.range(9, 13);
+    let mut lib = vec![("hub".to_string(), "# Hub\n\n## Hub part\n\ntext\n".to_string())];
+    for i in 0..n {
+        let mut t = format!("# Parent {:02}\n\n[hub](hub)\n", i);
+        if r.chance(1, 4) {
+            t.push_str(&format!("\n## Parent {:02} again\n\n[hub](hub)\n", i));
+        }
+        lib.push((format!("p{:02}", i), t));
+    }
+    lib
+}
+
 static D40_OPEN: std::sync::atomic::AtomicBool = std::sync::atomic::AtomicBool::new(false);
 
 pub fn run(ctx: &Ctx, model: &mut Model, rep: &mut Report) {
@@ -234,6 +249,7 @@ pub fn run(ctx: &Ctx, model: &mut Model, rep: &mut Report) {
         let mut r = Rng::for_case(ctx.seed ^ 0xC16, i as u64);
         let lib = match i % 3 {
             0 => c18::gen_library(&mut r, false),
+            1 if i % 6 == 4 => hub_library(&mut r),
             1 => diamond_library(&mut r),
             _ => hist::gen_history(&mut r, true, 0).import,
         };
